@@ -53,19 +53,26 @@ WHITELIST = frozenset([
 
 
 def split_parts(arg):
-    # Break in pieces at undoubled semicolons and
-    # change double semicolons to singles:
-    i = 0
+    # Break in pieces at undoubled semicolons and change double
+    # semicolons to singles; the semicolon that ends an entity
+    # reference belongs to the text. Every piece is cut out of the
+    # argument itself, such that it keeps its own position.
+    parts = []
+    start = i = 0
     while i < len(arg):
-        m = ENTITY_RE.search(arg[i:])
-        if m is None:
-            break
-        arg = arg[:i + m.end()] + ';' + arg[i + m.end():]
-        i += m.end()
+        m = ENTITY_RE.match(arg, i)
+        if m is not None:
+            i = m.end()
+        elif arg.startswith(';;', i):
+            i += 2
+        elif arg.startswith(';', i):
+            parts.append(arg[start:i])
+            start = i = i + 1
+        else:
+            i += 1
+    parts.append(arg[start:])
 
-    arg = arg.replace(";;", "\0")
-    parts = arg.split(';')
-    parts = [p.replace("\0", ";") for p in parts]
+    parts = [p.replace(";;", ";") for p in parts]
     if len(parts) > 1 and not parts[-1].strip():
         del parts[-1]  # It ended in a semicolon
 
